@@ -1,0 +1,28 @@
+//go:build verif
+
+package evalfilter
+
+import (
+	"github.com/skx/evalfilter/v2/environment"
+	"github.com/skx/evalfilter/v2/object"
+	"github.com/skx/evalfilter/v2/vm"
+)
+
+// Read-only accessors used by the verification harness in /verif.
+// They exist only when built with `-tags verif`.
+
+// VerifMachine returns the virtual machine created by Prepare (or nil).
+func (e *Eval) VerifMachine() *vm.VM { return e.machine }
+
+// VerifEnvironment returns the evaluator's environment.
+func (e *Eval) VerifEnvironment() *environment.Environment { return e.environment }
+
+// VerifConstants returns the constant pool.
+func (e *Eval) VerifConstants() []object.Object { return e.constants }
+
+// VerifUnoptimized returns the byte-code the compiler produced for the
+// main body, before the machine optimized its own copy.
+func (e *Eval) VerifUnoptimized() []byte { return []byte(e.instructions) }
+
+// VerifCompiledFunctions returns the user-functions as the compiler left them.
+func (e *Eval) VerifCompiledFunctions() map[string]environment.UserFunction { return e.functions }
